@@ -2,6 +2,7 @@
 # pylint: disable=global-statement
 
 import os
+import copy
 import time
 
 from typing import List, Union
@@ -19,7 +20,20 @@ _rcfgs = None
 #
 class FastTypedDict(ru.TypedDict):
 
+    # do not deep-copy the class level defaults on construction (performance)
     _deep = False
+
+    def __init__(self, from_dict=None, **kwargs):
+
+        super().__init__(from_dict=from_dict, **kwargs)
+
+        # with `_deep = False` all instances share the list and dict objects
+        # of the class level `_defaults`: an `append` on one instance would
+        # change the defaults and thus all other instances.  Give this instance
+        # its own (shallow) copies of the default containers it still uses.
+        for key, val in self._defaults.items():
+            if isinstance(val, (list, dict)) and self.get(key) is val:
+                self[key] = copy.copy(val)
 
 
 # ------------------------------------------------------------------------------
